@@ -126,7 +126,7 @@ TRACE_CFG = """SPECIFICATION TraceSpec
 CONSTANTS
     Clients = {%(clients)s}
     Users = {%(users)s}
-    Pws = {"p1", "p2", "p3"}
+    Pws = {"p1", "p2", "p3", "p4"}
     Sets = {1, 2, 3}
     Default = %(default)d
     PolicyOK = {%(policyok)s}
@@ -357,6 +357,13 @@ def judge(ctx, scenarios, results, events, name, default_prop):
                 ctx.violation(sc.get("expect_prop", default_prop), sc.get("expect_key_master", "master-expectation"),
                               "scenario %s: user %s on the master at idle: %s (got, wanted); master served %s requests" % (
                                   sc["name"], u, bad, idle.get("master_hits")))
+        pol = reset.get("policyok") or []
+        if pol:     # whatever the trace says: no password failing the policy may have found its way into the directory
+            for u, f in idle["files"].items():
+                was = (reset["files"].get(u) or {}).get("pw")
+                if f.get("present") and f.get("pw") not in (was, "?") and ("%s/%s" % (u, f["pw"])) not in pol:
+                    ctx.violation("C17", "policy-failing-password-in-store", "scenario %s: user %s now has password %s, which fails the policy %r" % (
+                        sc["name"], u, f["pw"], sc.get("policy_cond")))
         if sc.get("expect_unchanged") and idle.get("dirsha") != reset.get("dirsha"):
             ctx.violation(sc.get("expect_prop", default_prop), sc.get("expect_key", "directory-changed"),
                           "scenario %s: the store directory changed byte-wise although it must not" % sc["name"])
